@@ -197,6 +197,9 @@ func (q qiDecoder) sliceValue(v reflect.Value) error {
 	if err != nil {
 		return fmt.Errorf("failed to read vector size: %w", err)
 	}
+	if length < 0 {
+		return fmt.Errorf("invalid size: %d", length)
+	}
 	l := int(length)
 	if v.Kind() == reflect.Ptr && v.IsNil() {
 		if !v.CanSet() {
@@ -258,6 +261,9 @@ func (q qiDecoder) mapValue(v reflect.Value) error {
 	length, err := basic.ReadInt32(q.r)
 	if err != nil {
 		return fmt.Errorf("failed to read vector size: %w", err)
+	}
+	if length < 0 {
+		return fmt.Errorf("invalid size: %d", length)
 	}
 	l := int(length)
 	if v.Kind() == reflect.Ptr && v.IsNil() {
